@@ -186,11 +186,34 @@ func checkC16(c *Ctx) {
 
 func c16Items(c *Ctx) []pgen.FItem {
 	r := rand.New(rand.NewSource(c.Seed*401 + 5))
-	types := []string{"int", "string", "bool", "float64", "NInt", "NStr", "SV", "*SV", "[]int", "map[string]int", "Arr", "[2]int", "any", "SP"}
+	types := []string{"int", "string", "bool", "float64", "NInt", "NStr", "SV", "*SV", "[]int", "map[string]int", "Arr", "[2]int", "any", "SP", "complex128", "NCx", "error", "uint8"}
 	var items []pgen.FItem
 	seen := map[string]bool{}
 	n := 0
 	id := func() string { n++; return fmt.Sprintf("E%03d", n) }
+	// every type once as the single result of a failing chain, a failing fmap and a failing join (the zero
+	// value of every kind has to be spelled), and fmap over endomorphisms (f: A -> A)
+	for ti, t := range types {
+		if t == "error" {
+			continue
+		}
+		if c.Quick && ti%2 != int(c.Seed%2) && t != "complex128" && t != "NCx" {
+			continue
+		}
+		key := sigKey("compose", nil, nil) + "/" + t + "/" + t
+		if !seen[key] {
+			seen[key] = true
+			items = append(items, pgen.ComposeItem(id(), nil, [][]string{{t}, {t}}))
+		}
+		if !seen[sigKey("fmap", []string{t}, []string{t})] {
+			seen[sigKey("fmap", []string{t}, []string{t})] = true
+			items = append(items, pgen.FmapErrItem(id(), t, []string{t}))
+		}
+		if !seen[sigKey(fmt.Sprint("join", false), nil, []string{t})] {
+			seen[sigKey(fmt.Sprint("join", false), nil, []string{t})] = true
+			items = append(items, pgen.JoinErrItem(id(), []string{t}, false))
+		}
+	}
 	// compose: systematic small space + random
 	for k := 2; k <= 4; k++ {
 		for v := 0; v < tierN(c, 8, 40); v++ {
@@ -379,6 +402,10 @@ func c18Items(c *Ctx) []pgen.FItem {
 	add(pgen.FSig{P: []string{"int"}, R: []string{"*SP"}, Mode: "named", ZeroResults: true})
 	add(pgen.FSig{P: []string{"[]string"}, R: []string{"[]SV", "*int"}, Mode: "named", ZeroResults: true})
 	add(pgen.FSig{P: nil, R: []string{"*NStr", "[]SV"}, Mode: "named", ZeroResults: true})
+	// arguments overwritten in place between two calls (signatures with results (int, NCx): no other item has them)
+	for i, t := range []string{"[]int", "[]string", "*SV", "map[string]int"} {
+		items = append(items, pgen.MemMutateItem(fmt.Sprintf("QM%d", i), t))
+	}
 	// functions that recurse through their own memoized form
 	items = append(items, pgen.MemReentrantItem("QR1", "int"), pgen.MemReentrantItem("QR2", "string"))
 	return items
